@@ -38,14 +38,15 @@ type c17Cmd struct {
 }
 
 type c17Scenario struct {
-	Idx  int      `json:"idx"`
-	Cmds []c17Cmd `json:"cmds"`
+	Idx    int      `json:"idx"`
+	FastIv bool     `json:"fast_interval"` // probe interval 300ms with probe timeout 1s: probes slower than the interval
+	Cmds   []c17Cmd `json:"cmds"`
 }
 
 var c17Hosts = map[string]string{"s1": "one.example", "s2": "two.example"}
 
 func c17Gen(rng *rand.Rand, idx int, overlap bool) c17Scenario {
-	sc := c17Scenario{Idx: idx}
+	sc := c17Scenario{Idx: idx, FastIv: idx%4 == 3}
 	n := 1 + rng.IntN(10)
 	exists := map[string]bool{}
 	gen := 0
@@ -75,6 +76,9 @@ func c17Gen(rng *rand.Rand, idx int, overlap bool) c17Scenario {
 					t.FirstOK = -1
 				case 1, 2:
 					t.FirstOK = 1 + rng.IntN(4)
+				}
+				if sc.FastIv && t.FirstOK > 0 {
+					t.FirstOK = 0 // with slow probes only "healthy at once" and "never" are modelled
 				}
 				c.Targets = append(c.Targets, t)
 			}
@@ -112,9 +116,13 @@ func c17Gen(rng *rand.Rand, idx int, overlap bool) c17Scenario {
 	return sc
 }
 
-func (t c17Target) script() func(n int, at time.Duration) ProbeAct {
+func (t c17Target) script(slow bool) func(n int, at time.Duration) ProbeAct {
 	return func(n int, at time.Duration) ProbeAct {
 		if t.FirstOK >= 0 && n >= t.FirstOK {
+			if slow {
+				// answers, but slower than the probe interval: a probe is in flight most of the time
+				return ProbeAct{Status: 200, Delay: 700*time.Millisecond + OffTarget}
+			}
 			return ProbeAct{Status: 200}
 		}
 		switch t.FailKind {
@@ -148,6 +156,7 @@ type c17Exec struct {
 	allBefore []string // every target of the service before the command (disposed by remove)
 	existed   bool
 	state     string
+	conflict  bool // the deploy claims s1's host while s1 really exists
 }
 
 func c17Run(t *testing.T, run *Run, sc c17Scenario) {
@@ -156,6 +165,9 @@ func c17Run(t *testing.T, run *Run, sc c17Scenario) {
 	to := DefTO
 	to.HealthCheckConfig.Interval = c17Interval
 	to.HealthCheckConfig.Timeout = c17ProbeTO
+	if sc.FastIv {
+		to.HealthCheckConfig.Interval, to.HealthCheckConfig.Timeout = 300*time.Millisecond, time.Second
+	}
 	// live model of what the proxy should hold (updated from actual command results)
 	type svcState struct {
 		active, rollout []string
@@ -179,6 +191,18 @@ func c17Run(t *testing.T, run *Run, sc c17Scenario) {
 		if st != nil {
 			cp := *st
 			st = &cp
+		}
+		// a deploy conflicts iff another live service owns one of the hosts it claims
+		if c.Kind == "deploy" {
+			claim := c17Hosts[c.Svc]
+			if c.Conflict {
+				claim = c17Hosts["s1"]
+			}
+			for other, o := range svcs {
+				if other != c.Svc && contains(o.hosts, claim) {
+					ex.conflict = true
+				}
+			}
 		}
 		mmu.Unlock()
 		ex.existed = st != nil
@@ -227,7 +251,7 @@ func c17Run(t *testing.T, run *Run, sc c17Scenario) {
 		w.SleepUntil(issue)
 		var names []string
 		for _, tg := range c.Targets {
-			w.AddTarget(tg.Name, tg.script())
+			w.AddTarget(tg.Name, tg.script(sc.FastIv))
 			names = append(names, tg.Name)
 		}
 		switch c.Kind {
@@ -442,7 +466,7 @@ func c17Run(t *testing.T, run *Run, sc c17Scenario) {
 				}
 				if rec.Err != "" {
 					why := "failed deploy"
-					if c.Conflict {
+					if ex.conflict {
 						why = "failed deploy (host conflict)"
 					}
 					for _, tg := range c.Targets {
@@ -455,7 +479,7 @@ func c17Run(t *testing.T, run *Run, sc c17Scenario) {
 				}
 				continue
 			}
-			if c.Conflict && !allGood {
+			if ex.conflict && !allGood {
 				// both refused by a host conflict and unable to become healthy: it must fail, and no
 				// later than the deploy timeout; which of the two reasons is reported first is not fixed
 				if rec.Err == "" {
@@ -486,7 +510,7 @@ func c17Run(t *testing.T, run *Run, sc c17Scenario) {
 				classes["deploy-timeout|"+c.Targets[0].FailKind] = true
 				continue
 			}
-			if c.Conflict {
+			if ex.conflict {
 				if rec.Err == "" {
 					fail("conflict-accepted", "deploy of %s onto the host of s1 succeeded", c.Svc)
 					return
